@@ -135,6 +135,18 @@ func runC07(c *core.Ctx) {
 	if exec == nil || last == nil {
 		return
 	}
+	// the per-operation switch may have been moved into a private helper of Execute / LastOpDone
+	hasSwitch := func(iface string) func(*ssa.Function) bool {
+		return func(f *ssa.Function) bool { return len(caseInfo(f, iface)) > 0 }
+	}
+	if h := hostOf(exec, hasSwitch("Visitor")); h != nil {
+		c.Touch(h)
+		exec = h
+	}
+	if h := hostOf(last, hasSwitch("Inspector")); h != nil {
+		c.Touch(h)
+		last = h
+	}
 	ex := caseInfo(exec, "Visitor")
 	lo := caseInfo(last, "Inspector")
 	vals := make([]string, 0, len(ops))
